@@ -53,6 +53,12 @@ type model struct {
 	current    func(u uint64, ver int) map[dkey]bool // the node's assignment (version ver) for the operator's validators
 	mver       map[uint64]int                        // assignment version per epoch as of the notices delivered so far
 
+	// storeMode: the run serves TestPropDutyStoreServesValidation (property C10): dispatch misses are
+	// recorded as classes only, the case goes on
+	storeMode    bool
+	failsTotal   map[uint64]int // failed fetches per epoch / period, ever
+	skippedSlots map[uint64]bool
+
 	eventInDutyUnit bool
 	refetchChanged  bool
 	dispatches      int
@@ -262,6 +268,7 @@ func (m *model) consume(step string, entries []logEntry, tc *tickCtx) *prog.Fail
 		case en.fetch && !en.ok:
 			m.classes["fetch-failure"] = true
 			m.failsSince[en.unit]++
+			m.failsTotal[en.unit]++
 			for u := range m.lastVoid {
 				m.anyFail[u] = true
 			}
@@ -406,8 +413,8 @@ func (m *model) consume(step string, entries []logEntry, tc *tickCtx) *prog.Fail
 				case vDrift:
 					sig = "missed-after-notice-with-clock-behind-ticker"
 				}
-				if full := "C16:" + m.role + "-" + sig; prog.IsKnown(full) {
-					if !m.knownSeen[full] { // counted once per program; the case goes on behind it
+				if full := "C16:" + m.role + "-" + sig; m.storeMode || prog.IsKnown(full) {
+					if !m.knownSeen[full] && !m.storeMode { // counted once per program; the case goes on behind it
 						m.knownSeen[full] = true
 						prog.KnownHit(testName, full)
 					}
@@ -432,6 +439,7 @@ func (m *model) consume(step string, entries []logEntry, tc *tickCtx) *prog.Fail
 // at one particular tick (attester: slot SlotsPerEpoch/2-2 of every epoch; sync committee: that slot of the
 // first preparation epoch); if it is that one, remember which epoch / period lost its trigger.
 func (m *model) skipped(s uint64) {
+	m.skippedSlots[s] = true
 	if s%slotsPerEpoch != slotsPerEpoch/2-2 {
 		return
 	}
@@ -504,7 +512,12 @@ func expandFetch(p *Prog) {
 	p.Fetch = out
 }
 
-func run(p Prog) *prog.Result {
+func run(p Prog) *prog.Result { return execute(p, testName, nil) }
+
+// execute interprets p on the real handler. probe == nil: the dispatch oracle of C16 decides. probe != nil:
+// the duty-store oracle of C10 decides (after every fully processed step); the dispatch model only keeps
+// the book on what was fetched / voided.
+func execute(p Prog, test string, probe *storeProbe) *prog.Result {
 	res := &prog.Result{}
 	expandFetch(&p)
 	w := &world{p: p, ver: map[uint64]int{}}
@@ -518,9 +531,13 @@ func run(p Prog) *prog.Result {
 	w.clock.Store(clock)
 
 	m := &model{role: p.Role, last: map[uint64]*assign{}, seen: map[seenKey]bool{}, classes: map[string]bool{"role=" + p.Role: true},
-		failsSince: map[uint64]int{}, anyFail: map[uint64]bool{}, lastVoid: map[uint64]*voidInfo{}, driftSince: map[uint64]bool{}, skipTrig: map[uint64]bool{}, knownSeen: map[string]bool{}, mver: map[uint64]int{}, grace: map[uint64]bool{}}
+		failsSince: map[uint64]int{}, anyFail: map[uint64]bool{}, lastVoid: map[uint64]*voidInfo{}, driftSince: map[uint64]bool{}, skipTrig: map[uint64]bool{}, knownSeen: map[string]bool{}, failsTotal: map[uint64]int{}, skippedSlots: map[uint64]bool{}, mver: map[uint64]int{}, grace: map[uint64]bool{}}
 	m.current = w.ownDuties
-	h := newHandler(p.Role)
+	m.storeMode = probe != nil
+	h, st := newHandler(p.Role)
+	if probe != nil {
+		probe.init(st, m, w)
+	}
 	tk := &fakeTicker{c: make(chan time.Time)}
 	reorgCh := make(chan duties.ReorgEvent)
 	idxCh := make(chan struct{})
@@ -542,13 +559,23 @@ func run(p Prog) *prog.Result {
 	finish := func(f *prog.Failure) *prog.Result {
 		res.Fail = f
 		res.NonTrivial = m.eventInDutyUnit && m.refetchChanged
+		if probe != nil {
+			if f != nil && strings.HasPrefix(f.Sig, "C16:") && !strings.HasSuffix(f.Sig, "handler-exited") { // dispatch-oracle finding: C16's business, the case just ends here
+				f = nil
+				m.classes["ended-by-dispatch-oracle"] = true
+			}
+			res.Fail = f
+			res.NonTrivial = probe.acrossBoundary
+			prog.Count(test, "store_lookups", probe.lookups)
+			prog.Count(test, "store_absent_not_judged", probe.absentObs)
+		}
 		for c := range m.classes {
 			res.Classes = append(res.Classes, c)
 		}
 		sort.Strings(res.Classes)
-		prog.Count(testName, "dispatches", m.dispatches)
-		prog.Count(testName, "obligations_checked", m.obligations)
-		prog.Count(testName, "fetch_calls", w.nfetch)
+		prog.Count(test, "dispatches", m.dispatches)
+		prog.Count(test, "obligations_checked", m.obligations)
+		prog.Count(test, "fetch_calls", w.nfetch)
 		return res
 	}
 
@@ -694,6 +721,11 @@ func run(p Prog) *prog.Result {
 		}
 		if f := m.consume(name, take(), tc); f != nil {
 			return finish(f)
+		}
+		if probe != nil {
+			if f := probe.check(name, clock, tc); f != nil {
+				return finish(f)
+			}
 		}
 	}
 	if m.dispatches > 0 {
